@@ -167,6 +167,54 @@ func c15One(kind string, input string, docs []*impl.Binding) (msg string) {
 	return ""
 }
 
+type c15Inner struct {
+	S string `xsel:"."`
+}
+type c15UScalar struct {
+	name string `xsel:"name()"`
+}
+type c15USlice struct {
+	items []string `xsel:"*"`
+}
+type c15UStruct struct {
+	inner c15Inner `xsel:"."`
+}
+type c15UPtr struct {
+	p *c15Inner `xsel:"."`
+	n *int      `xsel:"count(*)"`
+}
+type c15UMixed struct {
+	A string       `xsel:"name()"`
+	b int          `xsel:"count(*)"`
+	C []c15UScalar `xsel:"*"`
+}
+type c15UNested struct {
+	In  c15UScalar   `xsel:"."`
+	Ptr *c15USlice   `xsel:"."`
+	All []c15UStruct `xsel:"//*"`
+}
+type c15Embed struct {
+	c15Inner
+	c15UScalar
+	X string `xsel:"name()"`
+}
+type c15EmbedPtr struct {
+	*c15Inner
+	X string `xsel:"name()"`
+}
+
+// c15StaticTargets: constructors of fresh targets with tagged unexported fields
+// (scalar, slice, struct, pointer), at top level, nested, inside slice elements
+// and embedded.
+func c15StaticTargets() []func() interface{} {
+	return []func() interface{}{
+		func() interface{} { return &c15UScalar{} }, func() interface{} { return &c15USlice{} }, func() interface{} { return &c15UStruct{} }, func() interface{} { return &c15UPtr{} },
+		func() interface{} { return &c15UMixed{} }, func() interface{} { return &c15UNested{} }, func() interface{} { return &c15Embed{} }, func() interface{} { return &c15EmbedPtr{} },
+		func() interface{} { return &[]c15UScalar{} }, func() interface{} { return &[]*c15UPtr{} }, func() interface{} { return &[]c15UNested{} },
+		func() interface{} { p := &c15UMixed{}; return &p }, func() interface{} { return c15UScalar{} }, func() interface{} { return []c15UScalar{} },
+	}
+}
+
 // c15EncodingLabels is the catalogue of charset names tried in declarations.
 func c15EncodingLabels() []string {
 	base := []string{
@@ -483,6 +531,18 @@ func C15(c *run.Check) {
 				}
 			}
 		})
+		// statically declared targets (reflect.StructOf cannot make them): tagged
+		// unexported fields of every shape, embedded structs, named field types
+		for ti, mk := range c15StaticTargets() {
+			for ri, res := range results {
+				c.Evaluations.Add(1)
+				if _, pan := callUnmarshal(res, mk(), c19Settings(b)); pan != "" {
+					c.Violation(c15Case{Kind: "unmarshal", Input: fmt.Sprintf("static target %d (%T), result %s", ti, mk(), rnames[ri]), Detail: pan},
+						fmt.Sprintf("[unmarshal] target %T from %s: panic: %s", mk(), rnames[ri], pan))
+					break
+				}
+			}
+		}
 		c.Distinct("unmarshal-sweep")
 	}
 	// encoding labels: every label of a catalogue of charset names (supported,
@@ -553,7 +613,7 @@ func C15(c *run.Check) {
 	c.Sample(map[string]string{"kind": "xml-bytes", "input": "<a x=\"&#"})
 	c.Sample(map[string]string{"kind": "expr-tokens", "input": "u() | $n [ boom() ]"})
 	c.Sample(map[string]string{"kind": "json-bytes", "input": "{\"a\":[1e"})
-	c.Rule = "ALL strings up to a length bound over five alphabets, in worker subprocesses: expression token strings (C08 alphabet + nil variable, user functions returning (nil,nil) / an error / panicking, huge numbers) built AND executed on 2 documents under 3 binding sets; expression byte strings (incl. invalid UTF-8, NUL, and valid 2-, 4- and 9-byte characters/names); XML, JSON byte strings and HTML token strings through ReadXml/ReadJson/ReadHtml followed by 6 queries on whatever tree comes back; the well-typed C01/C08 expression universes from every node must never give an 'xpath query panic' error; Unmarshal of 7 result shapes (empty/1/2/all nodes, string, number, boolean) into 8 target shapes (*S, **S, *[]S, *[]T, *T, **S with nil inner pointer, typed nil, non-pointer) for 50 field types (incl. defined types such as a named int64, float64, string, []string) x 12/30 tag expressions; every label of a catalogue of charset names (supported, registered but unsupported, stateful, unknown, odd spellings) in XML declarations and HTML meta elements over 5 bodies; nesting-depth sweeps (parentheses, predicates, steps, unions, expression nesting up to 400/2000, document depth/width up to 400/100000) in subprocesses. Oracle: the call returns, with (non-nil value, nil) or (_, non-nil error); no panic escapes; the process survives"
+	c.Rule = "ALL strings up to a length bound over five alphabets, in worker subprocesses: expression token strings (C08 alphabet + nil variable, user functions returning (nil,nil) / an error / panicking, huge numbers) built AND executed on 2 documents under 3 binding sets; expression byte strings (incl. invalid UTF-8, NUL, and valid 2-, 4- and 9-byte characters/names); XML, JSON byte strings and HTML token strings through ReadXml/ReadJson/ReadHtml followed by 6 queries on whatever tree comes back; the well-typed C01/C08 expression universes from every node must never give an 'xpath query panic' error; Unmarshal of 7 result shapes (empty/1/2/all nodes, string, number, boolean) into 8 target shapes (*S, **S, *[]S, *[]T, *T, **S with nil inner pointer, typed nil, non-pointer) for 50 field types (incl. defined types such as a named int64, float64, string, []string) x 12/30 tag expressions, plus 14 statically declared targets with tagged unexported fields of every shape, embedded structs and slices of such structs; every label of a catalogue of charset names (supported, registered but unsupported, stateful, unknown, odd spellings) in XML declarations and HTML meta elements over 5 bodies; nesting-depth sweeps (parentheses, predicates, steps, unions, expression nesting up to 400/2000, document depth/width up to 400/100000) in subprocesses. Oracle: the call returns, with (non-nil value, nil) or (_, non-nil error); no panic escapes; the process survives"
 	c.Assume("bounded exhaustive, not coverage-guided: crashing inputs whose shortest form is longer than the bound are out of reach; the values Unmarshal produces are decided by C19")
 }
 
